@@ -1,5 +1,309 @@
 import PyttbModel.Core.Rows
 import PyttbModel.Core.Dims
 import PyttbModel.Core.Arr
+/-!
+Lemmas about the row-set helpers (`firstOccIdx`, `dedupRows`, `lastIdxOf`, `ismemberRows`,
+`intersectRows`, `setdiffRows`, `unionRows`).  Core Lean only.
+-/
 namespace Pyttb
+
+theorem getD_of_lt (A : List Row) (j : Nat) (h : j < A.length) : A.getD j [] = A[j] := by
+  simp [List.getD_eq_getElem?_getD, List.getElem?_eq_getElem h]
+
+theorem mem_take_iff_getD (A : List Row) (k : Nat) (hk : k < A.length) (r : Row) :
+    r ∈ A.take k ↔ ∃ j, j < k ∧ A.getD j [] = r := by
+  rw [List.mem_iff_getElem]
+  constructor
+  · rintro ⟨j, hj, rfl⟩
+    have hj' : j < k := by simp at hj; omega
+    refine ⟨j, hj', ?_⟩
+    rw [getD_of_lt A j (by omega)]; simp
+  · rintro ⟨j, hj, rfl⟩
+    have hjl : j < A.length := by omega
+    refine ⟨j, by simp; omega, ?_⟩
+    rw [getD_of_lt A j hjl]; simp
+
+theorem mem_firstOccIdx (A : List Row) (k : Nat) :
+    k ∈ firstOccIdx A ↔ k < A.length ∧ ∀ j, j < k → A.getD j [] ≠ A.getD k [] := by
+  unfold firstOccIdx
+  simp only [List.mem_filter, List.mem_range, Bool.not_eq_true', List.contains_eq_mem,
+    decide_eq_false_iff_not]
+  constructor
+  · rintro ⟨hk, h⟩
+    refine ⟨hk, fun j hj he => h ?_⟩
+    exact (mem_take_iff_getD A k hk _).2 ⟨j, hj, he⟩
+  · rintro ⟨hk, h⟩
+    refine ⟨hk, fun hm => ?_⟩
+    obtain ⟨j, hj, he⟩ := (mem_take_iff_getD A k hk _).1 hm
+    exact h j hj he
+
+theorem firstOccIdx_pairwise (A : List Row) : (firstOccIdx A).Pairwise (· < ·) := by
+  unfold firstOccIdx
+  exact List.Pairwise.filter _ List.pairwise_lt_range
+
+theorem firstOccIdx_spec (A : List Row) :
+    (firstOccIdx A).Pairwise (· < ·) ∧
+    ∀ k, k ∈ firstOccIdx A ↔ k < A.length ∧ ∀ j, j < k → A.getD j [] ≠ A.getD k [] :=
+  ⟨firstOccIdx_pairwise A, mem_firstOccIdx A⟩
+
+theorem lastIdxOf_eq_some {src : List Row} {r : Row} {j : Nat} (h : lastIdxOf src r = some j) :
+    j < src.length ∧ src[j]? = some r ∧ ∀ j', j < j' → src[j']? ≠ some r := by
+  unfold lastIdxOf at h
+  simp only at h
+  split at h
+  · rename_i k hk
+    rw [List.findIdx?_eq_some_iff_getElem] at hk
+    obtain ⟨hlt, hp, hmin⟩ := hk
+    simp only [List.length_reverse] at hlt
+    injection h with h
+    subst h
+    refine ⟨by omega, ?_, ?_⟩
+    · rw [List.getElem_reverse] at hp
+      have := eq_of_beq hp
+      rw [List.getElem?_eq_getElem (by omega), this]
+    · intro j' hj' he
+      have hj'l : j' < src.length := by
+        rcases Nat.lt_or_ge j' src.length with h | h
+        · exact h
+        · rw [List.getElem?_eq_none h] at he; cases he
+      have hlt2 : src.length - 1 - j' < k := by omega
+      have := hmin (src.length - 1 - j') hlt2
+      rw [List.getElem_reverse] at this
+      apply this
+      have e : src.length - 1 - (src.length - 1 - j') = j' := by omega
+      rw [List.getElem?_eq_getElem hj'l] at he
+      injection he with he
+      simp only [e, he, beq_self_eq_true]
+  · cases h
+
+theorem lastIdxOf_eq_none {src : List Row} {r : Row} : lastIdxOf src r = none ↔ r ∉ src := by
+  unfold lastIdxOf
+  simp only
+  constructor
+  · intro h
+    split at h
+    · cases h
+    · rename_i hk
+      rw [List.findIdx?_eq_none_iff] at hk
+      intro hm
+      have := hk r (by simpa using hm)
+      simp at this
+  · intro h
+    have : (src.reverse).findIdx? (· == r) = none := by
+      rw [List.findIdx?_eq_none_iff]
+      intro x hx
+      have hx' : x ∈ src := by simpa using hx
+      simp only [beq_eq_false_iff_ne, ne_eq]
+      rintro rfl; exact h hx'
+    rw [this]
+
+theorem lastIdxOf_of_mem {src : List Row} {r : Row} (h : r ∈ src) : ∃ j, lastIdxOf src r = some j := by
+  cases hl : lastIdxOf src r with
+  | none => exact absurd h (lastIdxOf_eq_none.1 hl)
+  | some j => exact ⟨j, rfl⟩
+
+theorem ismember_spec (search source : List Row) (k : Nat) (hk : k < search.length) :
+    ∃ p, (ismemberRows search source)[k]? = some p ∧
+      (search[k] ∈ source → p.1 = true ∧ ∃ j : Nat, p.2 = (j : Int) ∧ source[j]? = some search[k] ∧
+          ∀ j', j < j' → source[j']? ≠ some search[k]) ∧
+      (search[k] ∉ source → p = (false, -1)) := by
+  unfold ismemberRows
+  rw [List.getElem?_map, List.getElem?_eq_getElem hk]
+  simp only [Option.map_some]
+  refine ⟨_, rfl, ?_, ?_⟩
+  · intro hm
+    obtain ⟨j, hj⟩ := lastIdxOf_of_mem hm
+    rw [hj]
+    obtain ⟨_, h2, h3⟩ := lastIdxOf_eq_some hj
+    exact ⟨rfl, j, rfl, h2, h3⟩
+  · intro hm
+    rw [lastIdxOf_eq_none.2 hm]
+
+
+theorem firstOccIdx_inj {A : List Row} {k1 k2 : Nat} (h1 : k1 ∈ firstOccIdx A) (h2 : k2 ∈ firstOccIdx A)
+    (he : A.getD k1 [] = A.getD k2 []) : k1 = k2 := by
+  rw [mem_firstOccIdx] at h1 h2
+  rcases Nat.lt_trichotomy k1 k2 with h | h | h
+  · exact absurd he (h2.2 k1 h)
+  · exact h
+  · exact absurd he.symm (h1.2 k2 h)
+
+theorem exists_firstOcc (A : List Row) (k : Nat) (hk : k < A.length) :
+    ∃ k', k' ∈ firstOccIdx A ∧ A.getD k' [] = A.getD k [] := by
+  induction k using Nat.strongRecOn with
+  | _ k ih =>
+    by_cases h : ∀ j, j < k → A.getD j [] ≠ A.getD k []
+    · exact ⟨k, (mem_firstOccIdx A k).2 ⟨hk, h⟩, rfl⟩
+    · have : ∃ j, j < k ∧ A.getD j [] = A.getD k [] := by
+        apply Classical.byContradiction
+        intro hn
+        apply h
+        intro j hj he
+        exact hn ⟨j, hj, he⟩
+      obtain ⟨j, hj, he⟩ := this
+      obtain ⟨k', hk', he'⟩ := ih j hj (by omega)
+      exact ⟨k', hk', he'.trans he⟩
+
+theorem mem_dedupRows (A : List Row) (r : Row) : r ∈ dedupRows A ↔ r ∈ A := by
+  unfold dedupRows
+  simp only [List.mem_map]
+  constructor
+  · rintro ⟨k, hk, rfl⟩
+    have hlt := ((mem_firstOccIdx A k).1 hk).1
+    rw [getD_of_lt A k hlt]; exact List.getElem_mem hlt
+  · intro h
+    obtain ⟨k, hk, rfl⟩ := List.mem_iff_getElem.1 h
+    obtain ⟨k', hk', he⟩ := exists_firstOcc A k hk
+    exact ⟨k', hk', by rw [he, getD_of_lt A k hk]⟩
+
+theorem dedupRows_nodup (A : List Row) : (dedupRows A).Nodup := by
+  unfold dedupRows List.Nodup
+  rw [List.pairwise_map]
+  refine List.Pairwise.imp_of_mem ?_ (firstOccIdx_pairwise A)
+  intro a b ha hb hlt he
+  have := firstOccIdx_inj ha hb he
+  omega
+
+theorem dedupRows_spec (A : List Row) :
+    (dedupRows A).Nodup ∧ ∀ r, r ∈ dedupRows A ↔ r ∈ A := ⟨dedupRows_nodup A, mem_dedupRows A⟩
+
+theorem length_dedupRows (A : List Row) : (dedupRows A).length = (firstOccIdx A).length := by
+  simp [dedupRows]
+
+theorem filterMap_map_eq_filter {α β : Type} (l : List α) (f : α → Option β) (g : β → α) (p : α → Bool)
+    (h1 : ∀ x ∈ l, ∀ y, f x = some y → g y = x ∧ p x = true)
+    (h2 : ∀ x ∈ l, f x = none → p x = false) :
+    (l.filterMap f).map g = l.filter p := by
+  induction l with
+  | nil => rfl
+  | cons a l ih =>
+    have ih' := ih (fun x hx => h1 x (List.mem_cons_of_mem _ hx)) (fun x hx => h2 x (List.mem_cons_of_mem _ hx))
+    cases hf : f a with
+    | none =>
+      rw [List.filterMap_cons_none hf, List.filter_cons_of_neg (by simp [h2 a List.mem_cons_self hf]), ih']
+    | some y =>
+      obtain ⟨hg, hp⟩ := h1 a List.mem_cons_self y hf
+      rw [List.filterMap_cons_some hf, List.map_cons, List.filter_cons_of_pos hp, ih', hg]
+
+/-- what `lastIdxOf (dedupRows A) r = some j` tells us. -/
+theorem lastIdxOf_dedup {A : List Row} {r : Row} {j : Nat} (h : lastIdxOf (dedupRows A) r = some j) :
+    j < (firstOccIdx A).length ∧ (firstOccIdx A).getD j 0 ∈ firstOccIdx A ∧
+      A.getD ((firstOccIdx A).getD j 0) [] = r := by
+  obtain ⟨hlt, hget, _⟩ := lastIdxOf_eq_some h
+  rw [length_dedupRows] at hlt
+  have e : (firstOccIdx A).getD j 0 = (firstOccIdx A)[j] := by
+    simp [List.getD_eq_getElem?_getD, List.getElem?_eq_getElem hlt]
+  refine ⟨hlt, by rw [e]; exact List.getElem_mem hlt, ?_⟩
+  rw [e]
+  unfold dedupRows at hget
+  rw [List.getElem?_map, List.getElem?_eq_getElem hlt] at hget
+  simpa using hget
+
+theorem intersect_map (A B : List Row) :
+    (intersectRows A B).map (fun k => A.getD k []) = (dedupRows B).filter (fun r => A.contains r) := by
+  unfold intersectRows locValid
+  rw [List.map_map]
+  apply filterMap_map_eq_filter
+  · intro r _ j hj
+    obtain ⟨_, _, h3⟩ := lastIdxOf_dedup hj
+    refine ⟨h3, ?_⟩
+    have : r ∈ dedupRows A := by
+      obtain ⟨_, hget, _⟩ := lastIdxOf_eq_some hj
+      exact List.mem_of_getElem? hget
+    simpa using (mem_dedupRows A r).1 this
+  · intro r _ hn
+    have := lastIdxOf_eq_none.1 hn
+    rw [mem_dedupRows] at this
+    simpa using this
+
+theorem intersect_mem (A B : List Row) : ∀ k ∈ intersectRows A B, k ∈ firstOccIdx A := by
+  intro k hk
+  unfold intersectRows locValid at hk
+  simp only [List.mem_map, List.mem_filterMap] at hk
+  obtain ⟨j, ⟨r, _, hj⟩, rfl⟩ := hk
+  exact (lastIdxOf_dedup hj).2.1
+
+theorem intersect_spec (A B : List Row) :
+    (intersectRows A B).map (fun k => A.getD k []) = (dedupRows B).filter (fun r => A.contains r) ∧
+    ∀ k ∈ intersectRows A B, k ∈ firstOccIdx A := ⟨intersect_map A B, intersect_mem A B⟩
+
+
+theorem eraseDups_of_nodup (l : List Nat) (h : l.Nodup) : l.eraseDups = l := by
+  induction l with
+  | nil => rfl
+  | cons a l ih =>
+    rw [List.nodup_cons] at h
+    rw [List.eraseDups_cons]
+    have : l.filter (fun b => !b == a) = l := by
+      rw [List.filter_eq_self]
+      intro b hb
+      have : b ≠ a := by rintro rfl; exact h.1 hb
+      simp [this]
+    rw [this, ih h.2]
+
+theorem setdiff1d_of_sorted (xs ys : List Nat) (h : xs.Pairwise (· < ·)) :
+    setdiff1d xs ys = xs.filter (fun x => !ys.contains x) := by
+  unfold setdiff1d
+  have hf : (xs.filter (fun x => !ys.contains x)).Pairwise (· < ·) := List.Pairwise.filter _ h
+  have hnd : (xs.filter (fun x => !ys.contains x)).Nodup :=
+    List.Pairwise.imp (fun hab => Nat.ne_of_lt hab) hf
+  rw [eraseDups_of_nodup _ hnd]
+  apply List.mergeSort_of_pairwise
+  exact List.Pairwise.imp (fun hab => by simpa using Nat.le_of_lt hab) hf
+
+theorem mem_intersect_iff (A B : List Row) (k : Nat) (hk : k ∈ firstOccIdx A) :
+    k ∈ intersectRows A B ↔ A.getD k [] ∈ B := by
+  have hmap := intersect_map A B
+  constructor
+  · intro h
+    have : A.getD k [] ∈ (intersectRows A B).map (fun k => A.getD k []) := List.mem_map_of_mem h
+    rw [hmap, List.mem_filter, mem_dedupRows] at this
+    exact this.1
+  · intro h
+    have hkA : A.getD k [] ∈ A := by
+      have hlt := ((mem_firstOccIdx A k).1 hk).1
+      rw [getD_of_lt A k hlt]; exact List.getElem_mem hlt
+    have : A.getD k [] ∈ (dedupRows B).filter (fun r => A.contains r) := by
+      rw [List.mem_filter, mem_dedupRows]; exact ⟨h, by simpa using hkA⟩
+    rw [← hmap, List.mem_map] at this
+    obtain ⟨k', hk', he⟩ := this
+    have := firstOccIdx_inj (intersect_mem A B k' hk') hk he
+    rw [← this]; exact hk'
+
+theorem setdiff_spec (A B : List Row) :
+    setdiffRows A B = (firstOccIdx A).filter (fun k => !B.contains (A.getD k [])) := by
+  unfold setdiffRows
+  rw [setdiff1d_of_sorted _ _ (firstOccIdx_pairwise A)]
+  apply List.filter_congr
+  intro k hk
+  have := mem_intersect_iff A B k hk
+  by_cases h : A.getD k [] ∈ B
+  · simp [-List.getD_eq_getElem?_getD, h, this.2 h]
+  · have h' : k ∉ intersectRows A B := fun hc => h (this.1 hc)
+    simp [-List.getD_eq_getElem?_getD, h, h']
+
+theorem union_spec (A B : List Row) :
+    (unionRows A B).Nodup ∧ ∀ r, r ∈ unionRows A B ↔ r ∈ A ∨ r ∈ B := by
+  unfold unionRows
+  constructor
+  · rw [List.nodup_append]
+    refine ⟨List.Pairwise.filter _ (dedupRows_nodup B), dedupRows_nodup A, ?_⟩
+    intro a ha b hb hab
+    subst hab
+    rw [List.mem_filter] at ha
+    have := ha.2
+    simp [hb] at this
+  · intro r
+    simp only [List.mem_append, List.mem_filter, mem_dedupRows, Bool.not_eq_true',
+      List.contains_eq_mem, decide_eq_false_iff_not]
+    constructor
+    · rintro (⟨h, _⟩ | h)
+      · exact Or.inr h
+      · exact Or.inl h
+    · rintro (h | h)
+      · exact Or.inr h
+      · by_cases hA : r ∈ A
+        · exact Or.inr hA
+        · exact Or.inl ⟨h, hA⟩
+
 end Pyttb
